@@ -70,6 +70,10 @@ func (g *G) valueFor(kind string, o *MsgOpts) string {
 		if o.WildNumbers && g.R.Chance(1, 2) {
 			return g.Digits()
 		}
+		if g.R.Chance(1, 4) {
+			// valid, but beyond what Content-Length would allow
+			return strconv.FormatUint(uint64(1<<24)+1+g.R.U64()%(uint64(1<<32)-(1<<24)-1), 10)
+		}
 		return g.SmallNum(100000)
 	case "user-agent":
 		return g.Generic()
@@ -242,7 +246,12 @@ func (g *G) Msg(o MsgOpts) MsgSpec {
 			case 1:
 				name = g.R.Pick([]string{"Subject", "Allow", "Supported", "Content-Type", "Froms", "Tos", "Vias", "Contacts", "Call-IDs", "Content-Lengths", "Rout", "Expire"})
 			}
-			m.Hdrs = append(m.Hdrs, g.mkHdr(name, g.Generic(), &o))
+			val := g.Generic()
+			if g.R.Chance(1, 400) {
+				// a very long header line (longer than any small buffer constant)
+				val = g.alnum(1, 8) + " " + strings.Repeat(g.alnum(8, 8)+" ", g.R.PickInt(130, 520, 1030, 1100, 2100)) + "end"
+			}
+			m.Hdrs = append(m.Hdrs, g.mkHdr(name, val, &o))
 			continue
 		}
 		name := g.hdrName(it)
